@@ -579,6 +579,13 @@ fn check_entry_laws<W: World>(w: &W, r: &mut Run, abs_l: &str, abs_t: &str, kind
                         if (x3.0.clone(), x3.1.clone()) != (x1.0.clone(), x1.1.clone()) {
                             r.bad(op, "follow(false) is not the identity", format!("entry({}).follow(true).follow(false): {:?} -> {:?}", abs_l, x1, x3));
                         }
+                        // "exactly once" whatever was asked in between: a follow(false) on the way does not re-arm the swap
+                        if let Some(f4) = r.call(op, move || f3.follow(true)) {
+                            let x4 = pa(&f4);
+                            if (x4.0.clone(), x4.1.clone()) != (x1.0.clone(), x1.1.clone()) {
+                                r.bad(op, "follow(true) after follow(true).follow(false) swaps a second time", format!("entry({}).follow(true) = {:?}; .follow(false).follow(true) = {:?}", abs_l, x1, x4));
+                            }
+                        }
                     }
                 }
             },
